@@ -40,6 +40,8 @@ CLAUSES = [
       "SCoda.NotesB.flag_key_signature_only", "SCoda.NotesB.flag_key_signature_strict"]),
     ('TIE BY TRANSLATION, absolute view with object identity: the dict-heavy / aliasing methods of AbsoluteSequence are re-translated statement by statement on every run (Gen/AbsFns2.lean, tools/py2lean_abs2.py: Message objects live in a heap, a reference is a position tag, stores through any alias update the heap cell, dicts are insertion-ordered association lists, while loops carry proved fuel bounds) and proved equal to the hand models, for every heap and reference list with references into the heap and channels not None: equals = the model equalsAbs for all four flags, get_interleaved_message_pairings = the model interleaved — for ALL inputs since the repair of D30 (on inputs with only unopened note-offs both return the empty list: interleaved_onlyOrphanOffs; the translation of the unrepaired source raised IndexError there, which is how D30 was found)',
      ["SCoda.AbsTie2.equalsAbs_eq", "SCoda.AbsTie2.interleaved_eq", "SCoda.AbsTie2.interleaved_onlyOrphanOffs", "SCoda.AbsTie2.channelsWithoutPairings_input", "SCoda.AbsTie2.pairings_eq"]),
+    ('the == operator (audit round 3 O1): Sequence.__eq__ is re-translated on every run and proved to be exactly equals with every ignore flag False (same state, verdict and error); AbsoluteSequence.__eq__ (return self.equals(o)) and RelativeSequence.__eq__ are dunder bodies pinned by the conventions fingerprint',
+     ["SCoda.WrapTie.eqDunder_eq", "SCoda.WrapTie.equals_eq", "SCoda.WrapTie.defaults_pinned"]),
 ]
 RULE = ("base well-formed sequences (<=6 notes, signatures) paired with: themselves, shuffled insertion orders, the relative "
         "re-representation, and every single-attribute perturbation (pitch, onset, duration, velocity, channel relabel, "
